@@ -164,6 +164,11 @@ func runProperty(spec *PropSpec, tier string, seed uint64) int {
 	for _, v := range out.violations {
 		if k := kf.match(spec.ID, v.Sig); k != nil {
 			knownHit[k.ID]++
+			if os.Getenv("VERIF_KEEP_KNOWN") != "" { // triage aid: keep the witnesses of known findings too
+				name := fmt.Sprintf("%s/replays/%s/known-%d-%s-%s.json", verifDir, spec.ID, seed, sanitize(v.Case), sanitize(strings.TrimPrefix(v.Sig, strings.ToLower(spec.ID)+":")))
+				b, _ := json.MarshalIndent(ReplayFile{Property: spec.ID, Case: v.Case, Sig: v.Sig, Detail: v.Detail, Job: v.job, Replay: v.Replay}, "", " ")
+				os.WriteFile(name, b, 0644)
+			}
 			continue
 		}
 		nviol++
